@@ -220,13 +220,16 @@ impl Engine {
             self.vo("C12", "acceptance_consumes_nomination", "second AcceptOwnership succeeded".into());
         }
         // admin-only probe: the former admin has lost its rights, the new one has them
+        // (the probe is an UpdateConfig that supplies no section: admin-only, and it changes nothing - a
+        // RevokeOwnershipTransfer probe would itself rewrite the handover state under test)
+        let probe = json!({"update_config": {"native_chain_config": Value::Null, "protocol_chain_config": Value::Null, "protocol_fee_config": Value::Null, "monitors": Value::Null, "batch_period": Value::Null}});
         if old != sender {
-            let r = self.run_admin(&old, &json!({"revoke_ownership_transfer": {}}), Origin::Other);
+            let r = self.run_admin(&old, &probe, Origin::Other);
             if r.ok {
                 self.v("C12", "former_admin_loses_rights", format!("former admin {} still passes an admin-only message", old));
             }
         }
-        let r = self.run_admin(&sender, &json!({"revoke_ownership_transfer": {}}), Origin::Other);
+        let r = self.run_admin(&sender, &probe, Origin::Other);
         if !r.ok && !r.env_fault {
             self.v("C12", "new_admin_has_rights", format!("new admin {} is refused an admin-only message: {}", sender, r.err));
         }
